@@ -52,6 +52,7 @@ def cmd_check(args, vx):
         return 2
     pc = cfg["properties"][prop]
     units = pc["units"]
+    vx.GEN = os.path.join(vx.BUILD, f"gen-{prop}-{tier}")
     ev_path = os.path.join(os.environ.get("VX_EVIDENCE_DIR", os.path.join(vx.VERIF, "evidence")), f"{prop}.json")
     try:
         os.remove(ev_path)
